@@ -2,7 +2,7 @@
 Re-runs one unit, picks the obligations whose clause contains the substring, and for each one reports the
 verdict; with extra spec hypotheses (evaluated in the obligation's state) it shows which added fact makes it go through."""
 import sys, time
-sys.path.insert(0, "/verif")
+sys.path.insert(0, __import__("os").path.dirname(__import__("os").path.dirname(__import__("os").path.abspath(__file__))))
 from pyvc.frontend import Repo
 from pyvc.contracts import load_sidecars, split_unit
 from pyvc.engine import Exec
@@ -12,7 +12,7 @@ import z3
 def main():
     unit, sub = sys.argv[1], sys.argv[2]
     extra = sys.argv[3:]
-    repo = Repo(); reg = load_sidecars("/verif/contracts")
+    repo = Repo(); reg = load_sidecars(__import__("os").path.join(__import__("os").path.dirname(__import__("os").path.dirname(__import__("os").path.abspath(__file__))), "contracts"))
     ex = Exec(repo, reg, unit)
     base = split_unit(unit)[0]
     if unit in reg.harnesses:
